@@ -115,17 +115,28 @@ func (f *Field) getArg(name string) (av *ArgValue) {
 
 func (f *Field) sortArgs() (errors []error) {
 	if 0 < len(f.Args) {
+		if it, _ := f.ConType.(*Interface); it != nil {
+			// The concrete type is not known yet so the order is left alone
+			// but arguments the interface field does not declare are refused.
+			if fd := it.fields.get(f.Name); fd != nil {
+				for _, av := range f.Args {
+					if fd.getArg(av.Arg) == nil {
+						errors = append(errors, valError(av.line, av.col, "%s is not an argument to %s", av.Arg, f.Name))
+					}
+				}
+			}
+		}
 		if ot, _ := f.ConType.(*Object); ot != nil {
 			if fd := ot.fields.get(f.Name); fd != nil {
 				args := make([]*ArgValue, 0, len(f.Args))
 				for _, a := range fd.args.list {
 					args = append(args, f.getArg(a.N))
 				}
-				if len(args) != len(f.Args) {
-					for _, av := range f.Args {
-						if fd.getArg(av.Arg) == nil {
-							errors = append(errors, valError(av.line, av.col, "%s is not an argument to %s", av.Arg, f.Name))
-						}
+				// Always check the names. Comparing counts only misses an
+				// undeclared argument given in place of a declared one.
+				for _, av := range f.Args {
+					if fd.getArg(av.Arg) == nil {
+						errors = append(errors, valError(av.line, av.col, "%s is not an argument to %s", av.Arg, f.Name))
 					}
 				}
 				f.Args = args
